@@ -285,6 +285,9 @@ Proof.
     destruct ((c =? 226) && (c2 =? 132) && (c3 =? 170)); discriminate.
 Qed.
 
+Lemma go_lower_nil v : go_lower v = [] -> v = [].
+Proof. destruct v as [|c r]; [reflexivity|]. intro E. exfalso. apply (go_lower_nonempty (c :: r)); [discriminate | exact E]. Qed.
+
 (* ================================================================ generated tables = documented tables *)
 (* Re-checked on every run against coq/Gen/C16Colors.v, i.e. against the tables of the linked d2. *)
 Lemma named_colors_doc : same_set named_colors doc_named_colors = true.
@@ -631,10 +634,11 @@ Proof.
 Qed.
 
 (* the acceptance test of Style.Apply("opacity"): all strings *)
-Theorem opacity_accept_iff (g : list N -> bool) c v :
-  accepts g c KOpacity v = true <-> parse_float v = Some FNaN \/ DocOpacityRounded v.
+(* the pinned test `f < 0 || f > 1` (before 0fc4ab54b): NaN passes *)
+Theorem opacity_pinned_accept_iff v :
+  opacity_accepts_pinned v = true <-> parse_float v = Some FNaN \/ DocOpacityRounded v.
 Proof.
-  rewrite <- doc_opacity_rounded_b_spec. unfold doc_opacity_rounded_b. cbn [accepts].
+  rewrite <- doc_opacity_rounded_b_spec. unfold doc_opacity_rounded_b, opacity_accepts_pinned.
   destruct (parse_float v) as [[|neg|hex neg m e]|] eqn:E.
   - cbn. split; auto.
   - destruct neg; cbn; split; try discriminate; intros [H|H]; discriminate.
@@ -643,6 +647,21 @@ Proof.
     + rewrite orb_false_r, negb_involutive. split; [auto | intros [H|H]; [discriminate | exact H]].
     + rewrite negb_involutive. split; [auto | intros [H|H]; [discriminate | exact H]].
   - split; [discriminate | intros [H|H]; discriminate].
+Qed.
+
+(* the repaired test `!(f >= 0 && f <= 1)`: all strings, unconditional *)
+Theorem opacity_accept_iff (g : list N -> bool) c v :
+  accepts g c KOpacity v = true <-> DocOpacityRounded v.
+Proof.
+  rewrite <- doc_opacity_rounded_b_spec. unfold doc_opacity_rounded_b. cbn [accepts].
+  destruct (parse_float v) as [[|neg|hex neg m e]|] eqn:E.
+  - cbn. split; discriminate.
+  - destruct neg; cbn; split; discriminate.
+  - cbn [flt_ge0 flt_le1 flt_lt0 flt_gt1]. unfold rounds_into_unit_b.
+    destruct neg; cbn [negb andb orb].
+    + rewrite negb_involutive, andb_true_r. tauto.
+    + rewrite negb_involutive. tauto.
+  - split; discriminate.
 Qed.
 
 Lemma strict_unit_rounds x : (0 <= x)%Q -> (x <= 1)%Q -> RoundsIntoUnit x.
@@ -655,23 +674,21 @@ Qed.
 
 Theorem opacity_complete (g : list N -> bool) c v : DocOpacity v -> accepts g c KOpacity v = true.
 Proof.
-  intros (x & L & H0 & H1). apply opacity_accept_iff. right. exists x. split; [exact L|].
+  intros (x & L & H0 & H1). apply opacity_accept_iff. exists x. split; [exact L|].
   apply strict_unit_rounds; assumption.
 Qed.
 
 Definition str_NaN : list N := [78; 97; 78].
 
-Theorem opacity_refuted (g : list N -> bool) :
-  exists v, accepts g CObj KOpacity v = true /\ ~ DocOpacityRounded v /\ ~ DocOpacity v.
+(* historical: the pinned code accepted NaN, the repaired code rejects it *)
+Theorem opacity_pinned_refuted (g : list N -> bool) :
+  opacity_accepts_pinned str_NaN = true /\ ~ DocOpacityRounded str_NaN /\ ~ DocOpacity str_NaN /\
+  accepts g CObj KOpacity str_NaN = false.
 Proof.
-  exists str_NaN. split; [reflexivity|]. split.
+  split; [reflexivity|]. split; [|split; [|reflexivity]].
   - intros (x & (hex & neg & m & e & E & _) & _). vm_compute in E. discriminate.
   - intros (x & (hex & neg & m & e & E & _) & _). vm_compute in E. discriminate.
 Qed.
-
-Theorem opacity_guarded (g : list N -> bool) c v :
-  parse_float v <> Some FNaN -> (accepts g c KOpacity v = true <-> DocOpacityRounded v).
-Proof. intro H. rewrite opacity_accept_iff. tauto. Qed.
 
 (* ================================================================ decider = documented domain *)
 Lemma in_doc_theme_b z : existsb (Z.eqb z) doc_theme_ids = true <-> In z doc_theme_ids.
@@ -712,7 +729,8 @@ Proof.
   - int_family.
   - int_family.
   - apply spells_one_of_b_spec; ascii_of_doc.
-  - destruct c; rewrite ?orb_true_iff, !spells_one_of_b_spec by ascii_of_doc; tauto.
+  - destruct c; rewrite ?orb_true_iff, !spells_one_of_b_spec by ascii_of_doc; try tauto.
+    destruct v; cbn [nonempty negb]; split; auto; intros [H|H]; auto; discriminate.
   - apply int_in_b_spec. intro z. apply in_doc_theme_b.
   - apply int_in_b_spec. intro z. apply in_doc_theme_b.
   - apply int_in_b_spec. intro z. tauto.
@@ -724,8 +742,9 @@ Proof.
 Qed.
 
 (* ================================================================ accept <-> documented domain *)
-Definition clean (k : kw) : bool :=
-  match k with KWidth | KHeight | KOpacity | KShape => false | _ => true end.
+(* every keyword in every context, except shape on arrowheads and connections (open finding) *)
+Definition clean (c : ctx) (k : kw) : bool :=
+  match k, c with KShape, CObj => true | KShape, _ => false | _, _ => true end.
 
 Ltac int_accept := rewrite atoi_in_is_int_in_b; apply int_in_b_spec; intro z; cbn beta; clear; lia.
 
@@ -735,10 +754,35 @@ Proof.
   rewrite atoi_in_is_int_in_b. apply int_in_b_spec. intro z. rewrite existsb_Zeqb_In. apply theme_ids_In.
 Qed.
 
-Theorem accept_iff_in_domain (g : list N -> bool) c k v :
-  clean k = true -> (accepts g c k v = true <-> DocDomain g c k v).
+(* ---------------------------------------------------------------- shape *)
+Lemma is_shape_spec v : is_shape v = true <-> v = [] \/ SpellsOneOf v doc_shapes.
 Proof.
-  destruct k; cbn [clean]; try discriminate; intros _; cbn [accepts DocDomain].
+  unfold is_shape. assert (A : ascii_table doc_shapes = true) by ascii_of_doc.
+  destruct (go_lower v) as [|r l] eqn:E.
+  - apply go_lower_nil in E. split; auto.
+  - assert (Hne : v <> []) by (intro; subst; discriminate).
+    rewrite <- E. rewrite (table_spec shapes doc_shapes v shapes_doc A). split; [auto | intros [H|H]; [contradiction | exact H]].
+Qed.
+
+(* the pinned EqualFold comparison agreed with the table only away from the byte C5 (U+017F) *)
+Lemma is_shape_pinned_guarded v : v <> [] -> ~ In 197 v -> (is_shape_pinned v = true <-> SpellsOneOf v doc_shapes).
+Proof.
+  intros Hne H197. unfold is_shape_pinned.
+  pose proof (go_lower_nonempty v Hne) as Hl.
+  pose proof (go_lower_no_long_s_len (length v) v (le_n _) H197) as Hs.
+  assert (A : ascii_table doc_shapes = true) by ascii_of_doc.
+  destruct (go_lower v) as [|r l] eqn:E; [congruence|].
+  rewrite fold_s_id by exact Hs. rewrite <- E. apply table_spec; [exact shapes_doc | exact A].
+Qed.
+
+Lemma is_arrowhead_spec v : is_arrowhead v = true <-> SpellsOneOf v doc_arrowheads.
+Proof. unfold is_arrowhead. apply table_spec; [exact arrowheads_doc | ascii_of_doc]. Qed.
+
+Theorem accept_iff_in_domain (g : list N -> bool) c k v :
+  clean c k = true -> (accepts g c k v = true <-> DocDomain g c k v).
+Proof.
+  destruct k; cbn [clean]; intros Hc; cbn [accepts DocDomain].
+  - apply opacity_accept_iff with (g := g) (c := c).
   - apply valid_color_spec.
   - apply valid_color_spec.
   - apply table_spec; [exact fill_patterns_doc | ascii_of_doc].
@@ -765,7 +809,10 @@ Proof.
   - int_accept.
   - int_accept.
   - int_accept.
+  - int_accept.
+  - int_accept.
   - apply table_spec; [exact directions_doc | ascii_of_doc].
+  - destruct c; try discriminate. apply is_shape_spec.
   - apply theme_accept.
   - apply theme_accept.
   - rewrite atoi_in_is_int_in_b. apply int_in_b_spec. intro z. tauto.
@@ -776,14 +823,10 @@ Proof.
   - rewrite mem_word_In. apply same_set_In. exact tooltip_positions_doc.
 Qed.
 
-(* ---------------------------------------------------------------- width / height *)
-Definition is_size (k : kw) : bool := match k with KWidth | KHeight => true | _ => false end.
-
-Theorem size_accept_iff (g : list N -> bool) c k v :
-  is_size k = true -> (accepts g c k v = true <-> IntIn v (fun _ => True)).
+(* ---------------------------------------------------------------- width / height: history *)
+Theorem size_pinned_accept_iff v : size_accepts_pinned v = true <-> IntIn v (fun _ => True).
 Proof.
-  destruct k; try discriminate; intros _; cbn [accepts];
-    rewrite atoi_in_is_int_in_b; apply int_in_b_spec; intro z; tauto.
+  unfold size_accepts_pinned. rewrite atoi_in_is_int_in_b. apply int_in_b_spec. intro z. tauto.
 Qed.
 
 Definition str_minus5 : list N := [45; 53].
@@ -794,51 +837,25 @@ Proof.
   constructor; [reflexivity | constructor].
 Qed.
 
-Theorem size_refuted (g : list N -> bool) :
-  exists v, accepts g CObj KWidth v = true /\ accepts g CObj KHeight v = true /\
-            ~ DocDomain g CObj KWidth v /\ ~ DocDomain g CObj KHeight v.
+(* the pinned code accepted -5 for width/height; the repaired code rejects it *)
+Theorem size_pinned_refuted (g : list N -> bool) :
+  size_accepts_pinned str_minus5 = true /\ ~ DocDomain g CObj KWidth str_minus5 /\
+  ~ DocDomain g CObj KHeight str_minus5 /\
+  accepts g CObj KWidth str_minus5 = false /\ accepts g CObj KHeight str_minus5 = false.
 Proof.
-  exists str_minus5. split; [reflexivity|]. split; [reflexivity|].
+  split; [reflexivity|].
   assert (H : ~ IntIn str_minus5 (fun z => 0 <= z)%Z).
   { intros (z & L & _ & Hz). pose proof (IntLit_fun _ _ _ L IntLit_minus5). lia. }
-  split; exact H.
+  split; [exact H|]. split; [exact H|]. split; reflexivity.
 Qed.
 
-Theorem size_guarded (g : list N -> bool) c k v :
-  is_size k = true -> (forall z, IntLit v z -> (0 <= z)%Z) ->
-  (accepts g c k v = true <-> DocDomain g c k v).
-Proof.
-  intros Hk Hnn. rewrite (size_accept_iff g c k v Hk).
-  assert (D : DocDomain g c k v = IntIn v (fun z => 0 <= z)%Z) by (destruct k; try discriminate; reflexivity).
-  rewrite D. unfold IntIn. split.
-  - intros (z & L & R & _). exists z. auto.
-  - intros (z & L & R & _). exists z. auto.
-Qed.
-
-(* ---------------------------------------------------------------- shape *)
-Lemma is_shape_guarded v : v <> [] -> ~ In 197 v -> (is_shape v = true <-> SpellsOneOf v doc_shapes).
-Proof.
-  intros Hne H197. unfold is_shape.
-  pose proof (go_lower_nonempty v Hne) as Hl.
-  pose proof (go_lower_no_long_s_len (length v) v (le_n _) H197) as Hs.
-  assert (A : ascii_table doc_shapes = true) by ascii_of_doc.
-  destruct (go_lower v) as [|r l] eqn:E; [congruence|].
-  rewrite fold_s_id by exact Hs. rewrite <- E. apply table_spec; [exact shapes_doc | exact A].
-Qed.
-
-Lemma is_arrowhead_spec v : is_arrowhead v = true <-> SpellsOneOf v doc_arrowheads.
-Proof. unfold is_arrowhead. apply table_spec; [exact arrowheads_doc | ascii_of_doc]. Qed.
-
-Theorem shape_object_guarded (g : list N -> bool) v :
-  v <> [] -> ~ In 197 v -> (accepts g CObj KShape v = true <-> DocDomain g CObj KShape v).
-Proof. intros. cbn [accepts DocDomain]. apply is_shape_guarded; assumption. Qed.
-
+(* ---------------------------------------------------------------- shape on arrowheads (open finding) *)
 (* on arrowheads (and connections) the compiler also lets every object shape through *)
 Theorem shape_arrowhead_guarded (g : list N -> bool) v :
-  v <> [] -> ~ In 197 v ->
+  v <> [] ->
   (accepts g CArrow KShape v = true <-> SpellsOneOf v doc_arrowheads \/ SpellsOneOf v doc_shapes).
 Proof.
-  intros Hne H197. cbn [accepts]. rewrite orb_true_iff, is_arrowhead_spec, (is_shape_guarded v Hne H197). tauto.
+  intros Hne. cbn [accepts]. rewrite orb_true_iff, is_arrowhead_spec, is_shape_spec. tauto.
 Qed.
 
 Definition str_long_s_quare : list N := [197; 191; 113; 117; 97; 114; 101].   (* "ſquare" *)
@@ -848,14 +865,13 @@ Lemma not_spells_by_decider v tbl :
   ascii_table tbl = true -> spells_one_of_b v tbl = false -> ~ SpellsOneOf v tbl.
 Proof. intros A H S. apply (spells_one_of_b_spec v tbl A) in S. congruence. Qed.
 
-Theorem shape_object_refuted (g : list N -> bool) :
-  (accepts g CObj KShape str_long_s_quare = true /\ ~ DocDomain g CObj KShape str_long_s_quare /\
-   stored CObj KShape str_long_s_quare = str_long_s_quare) /\
-  (accepts g CObj KShape [] = true /\ ~ DocDomain g CObj KShape []).
+(* historical: EqualFold let "ſquare" through and it was stored verbatim; now rejected *)
+Theorem shape_pinned_refuted (g : list N -> bool) :
+  is_shape_pinned str_long_s_quare = true /\ ~ SpellsOneOf str_long_s_quare doc_shapes /\
+  accepts g CObj KShape str_long_s_quare = false.
 Proof.
-  assert (A : ascii_table doc_shapes = true) by ascii_of_doc.
-  split; [split; [reflexivity | split; [|reflexivity]] | split; [reflexivity|]];
-    cbn [DocDomain]; apply not_spells_by_decider; try exact A; vm_compute; reflexivity.
+  split; [reflexivity|]. split; [|reflexivity].
+  apply not_spells_by_decider; [ascii_of_doc | vm_compute; reflexivity].
 Qed.
 
 Theorem shape_arrowhead_refuted (g : list N -> bool) :
@@ -906,8 +922,6 @@ Qed.
 Lemma lower_chars_plain l : Forall lower_char l -> Forall (fun r => r = long_s \/ lower_char r) l.
 Proof. intro H. eapply Forall_impl; [|exact H]. cbn. auto. Qed.
 
-Lemma go_lower_nil v : go_lower v = [] -> v = [].
-Proof. destruct v as [|c r]; [reflexivity|]. intro E. exfalso. apply (go_lower_nonempty (c :: r)); [discriminate | exact E]. Qed.
 
 (* Property clause 3 on the model: the value the compiler stores is the input, or (keyword-valued
    attributes) equal to it up to letter case.  Only exception: an empty object shape means "unset"
@@ -925,7 +939,7 @@ Proof.
   - (* shape *)
     assert (Sh : is_shape v = true -> go_lower v <> [] -> Forall (fun r => r = long_s \/ lower_char r) (go_lower v)).
     { unfold is_shape. destruct (go_lower v) as [|r l] eqn:E; [congruence|]. intros M _. apply mem_word_In in M.
-      eapply fold_s_chars; [reflexivity | apply (lower_table_word shapes); [exact low_shapes | exact M]]. }
+      apply lower_chars_plain. apply (lower_table_word shapes); [exact low_shapes | exact M]. }
     assert (Ah : is_arrowhead v = true -> Forall (fun r => r = long_s \/ lower_char r) (go_lower v)).
     { unfold is_arrowhead. intro M. apply mem_word_In in M. apply lower_chars_plain. apply (lower_table_word arrowheads); [exact low_arrow | exact M]. }
     destruct (go_lower v) as [|r l] eqn:E.
@@ -1127,17 +1141,22 @@ Lemma RoundsIntoUnit_compat x y : (x == y)%Q -> RoundsIntoUnit x -> RoundsIntoUn
 Proof. unfold RoundsIntoUnit. intros E [H1 H2]. rewrite <- E. auto. Qed.
 
 (* opacity on plain decimal literals, stated without the parser *)
+Lemma opacity_of_parsed (g : list N -> bool) c v hex neg m e :
+  parse_float v = Some (FNum hex neg m e) ->
+  (accepts g c KOpacity v = true <-> RoundsIntoUnit (fnum_Q hex neg m e)).
+Proof.
+  intro P. rewrite opacity_accept_iff. split.
+  - intros (x & (h' & n' & m' & e' & E & ->) & R). rewrite P in E. inversion E; subst. exact R.
+  - intro R. exists (fnum_Q hex neg m e). split; [exists hex, neg, m, e; auto | exact R].
+Qed.
+
 Theorem opacity_plain_decimal (g : list N -> bool) c v neg ip fp :
   DecimalLit v neg ip fp ->
   (accepts g c KOpacity v = true <-> RoundsIntoUnit (decimal_Q neg ip fp)).
 Proof.
-  intro D. pose proof (parse_float_decimal v neg ip fp D) as P.
-  rewrite opacity_accept_iff. split.
-  - intros [H | (x & (hex & ng & m & e & E & ->) & R)]; [congruence|].
-    rewrite P in E. inversion E; subst. eapply RoundsIntoUnit_compat; [apply decimal_value_eq | exact R].
-  - intro R. right. exists (fnum_Q false neg (pos_val (ip ++ fp)) (- Z.of_nat (length fp))).
-    split; [exists false, neg, (pos_val (ip ++ fp)), (- Z.of_nat (length fp))%Z; split; [exact P | reflexivity]|].
-    eapply RoundsIntoUnit_compat; [symmetry; apply decimal_value_eq | exact R].
+  intro D. rewrite (opacity_of_parsed g c v _ _ _ _ (parse_float_decimal v neg ip fp D)). split; intro R.
+  - eapply RoundsIntoUnit_compat; [apply decimal_value_eq | exact R].
+  - eapply RoundsIntoUnit_compat; [symmetry; apply decimal_value_eq | exact R].
 Qed.
 
 (* ================================================================ decimal literals with an exponent *)
@@ -1290,26 +1309,16 @@ Proof.
     rewrite S. reflexivity.
 Qed.
 
-Lemma opacity_of_parsed (g : list N -> bool) c v hex neg m e :
-  parse_float v = Some (FNum hex neg m e) ->
-  (accepts g c KOpacity v = true <-> RoundsIntoUnit (fnum_Q hex neg m e)).
-Proof.
-  intro P. rewrite opacity_accept_iff. split.
-  - intros [H | (x & (h' & n' & m' & e' & E & ->) & R)]; [congruence|].
-    rewrite P in E. inversion E; subst. exact R.
-  - intro R. right. exists (fnum_Q hex neg m e). split; [exists hex, neg, m, e; auto | exact R].
-Qed.
-
 Theorem opacity_decimal_exp (g : list N -> bool) c v neg ip fp eneg ed :
   DecimalExpLit v neg ip fp eneg ed ->
   (accepts g c KOpacity v = true <->
    RoundsIntoUnit (fnum_Q false neg (pos_val (ip ++ fp)) (exp_value eneg ed - Z.of_nat (length fp)))).
 Proof. intro D. apply opacity_of_parsed. apply parse_float_decimal_exp. exact D. Qed.
 
-(* the guard of the opacity theorem, stated on the string *)
-Theorem opacity_guarded_spelling (g : list N -> bool) c v :
-  map lowerA v <> str_nan -> (accepts g c KOpacity v = true <-> DocOpacityRounded v).
-Proof. intro H. apply opacity_guarded. rewrite parse_float_nan_iff. exact H. Qed.
+(* the pinned acceptance differed from the documented domain exactly on the spellings of nan *)
+Theorem opacity_pinned_guarded_spelling v :
+  map lowerA v <> str_nan -> (opacity_accepts_pinned v = true <-> DocOpacityRounded v).
+Proof. intro H. rewrite opacity_pinned_accept_iff, parse_float_nan_iff. tauto. Qed.
 
 (* ================================================================ near constants *)
 Lemma near_constants_ident : forallb ident_word doc_near_constants = true.
@@ -1324,30 +1333,22 @@ Qed.
 
 Section NearProofs.
   Variable parse_key : list N -> option (list (list N)).
+
+  (* unconditional, for every oracle: accepted iff the value denotes a one-element key naming a constant *)
+  Theorem near_accept_iff v : near_accepts parse_key v = true <-> DocNearKey (parse_key v).
+  Proof.
+    rewrite <- doc_near_key_b_spec. unfold near_accepts, doc_near_key_b.
+    destruct (parse_key v) as [[|w [|w2 r]]|]; try (split; intro; discriminate).
+    rewrite !mem_word_In. apply (same_set_In _ _ near_constants_doc).
+  Qed.
+
   (* ParseKey reads a word of lower-case letters and single hyphens as a one-element path *)
   Hypothesis H_ident : forall w, ident_word w = true -> parse_key w = Some [w].
 
   Theorem near_complete v : DocNear v -> near_accepts parse_key v = true.
   Proof.
     intro Hin. pose proof near_constants_ident as Hid. rewrite forallb_forall in Hid.
-    unfold near_accepts. rewrite (H_ident v (Hid v Hin)).
-    apply mem_word_In. apply (same_set_In _ _ near_constants_doc). exact Hin.
-  Qed.
-
-  (* on values that denote a one-element key the decision is exactly membership in the constants *)
-  Theorem near_accept_iff_key v : (exists w, parse_key v = Some [w]) ->
-    (near_accepts parse_key v = true <-> DocNearKey (parse_key v)).
-  Proof.
-    intros (w & E). rewrite <- doc_near_key_b_spec. unfold near_accepts, doc_near_key_b. rewrite E.
-    rewrite !mem_word_In. apply (same_set_In _ _ near_constants_doc).
-  Qed.
-
-  Theorem near_guarded v :
-    near_accepts parse_key v = true -> exists h t, parse_key v = Some (h :: t) /\ DocNear h.
-  Proof.
-    unfold near_accepts. destruct (parse_key v) as [[|h t]|]; try discriminate.
-    intro M. exists h, t. split; [reflexivity|]. apply mem_word_In in M.
-    apply (same_set_In _ _ near_constants_doc). exact M.
+    apply near_accept_iff. exists v. split; [apply H_ident, Hid, Hin | exact Hin].
   Qed.
 End NearProofs.
 
@@ -1369,13 +1370,16 @@ Proof.
   apply T in H. intros [E|E]; [subst; discriminate Hc | auto].
 Qed.
 
-Theorem near_refuted :
+(* historical: the pinned validateNear compared only the first path element *)
+Theorem near_pinned_refuted :
   (forall w, ident_word w = true -> pk_witness w = Some [w]) /\
-  near_accepts pk_witness str_top_center_foo = true /\ ~ DocNearKey (pk_witness str_top_center_foo).
+  near_accepts_pinned pk_witness str_top_center_foo = true /\ ~ DocNearKey (pk_witness str_top_center_foo) /\
+  near_accepts pk_witness str_top_center_foo = false.
 Proof.
-  split; [|split].
+  split; [|split; [|split]].
   - intros w Hw. unfold pk_witness. destruct (bytes_eqb w str_top_center_foo) eqn:E; [|reflexivity].
     apply bytes_eqb_eq in E. subst. exfalso. apply (ident_word_no_dot _ Hw). vm_compute. tauto.
   - vm_compute. reflexivity.
   - intro H. apply doc_near_key_b_spec in H. vm_compute in H. discriminate.
+  - vm_compute. reflexivity.
 Qed.
